@@ -321,6 +321,12 @@ def list_method(interp, lst: list, name, args, kwargs):
 def dict_method(interp, d: dict, name, args, kwargs):
     if name in ("items", "keys", "values", "copy", "clear"):
         return getattr(d, name)()
+    if name == "get" and args and isinstance(args[0], (SInt, SReal)) and all(isinstance(k, (int, float)) for k in d):
+        # concrete table, symbolic numeric key: fork over the keys
+        for k in d:
+            if interp.truth(args[0] == k):
+                return d[k]
+        return args[1] if len(args) > 1 else None
     if name in ("get", "pop", "setdefault", "update"):
         if args and isinstance(args[0], Sym):
             raise Unsupported(f"dict.{name} with symbolic key")
